@@ -44,3 +44,25 @@ def l5_fixture(services, mixin_methods):
     for service in services.values():
         has_overrides = not mixin_methods.keys().isdisjoint(service.methods)
     return has_overrides
+
+
+def l6_fixture(field_pbs, oneof_names):
+    out = []
+    for field_pb in field_pbs:
+        idx = field_pb.oneof_index if field_pb.HasField("oneof_index") else None
+        out.append(oneof_names[idx] if idx and idx < len(oneof_names) else None)
+    return out
+
+
+def l7_fixture(pattern, uri, fix):
+    def one(match):
+        name = match.group("name")
+        return match.group(0).replace(name, fix(name))
+    return pattern.sub(one, uri)
+
+
+def l8_fixture(services):
+    index = {}
+    for s in services:
+        index[s.name] = dict.fromkeys(s.methods, {"sync": None, "async": None})
+    return index
